@@ -3,7 +3,8 @@ Model/ConnMux.lean — the request/response multiplexer of one `kafka.Conn` (cor
 
 Follows conn.go:
   * `Event.write`   ↔ `(*Conn).doRequest`: the whole `wlock` critical section — `correlationID++`,
-                      the request is written with that id; on a write error the conn is closed.
+                      the request is written with that id (the event carries the id actually written; the
+                      model takes it only if it is the next number); on a write error the conn is closed.
   * `Event.take`    ↔ `(*Conn).waitResponse`, branch `id == rid`: the 8 header bytes are skipped, the
                       read lock stays with the caller (returned as `lock`), `c.leave()`.
   * `Event.yield`   ↔ branch "someone else's response": `c.rlock.Unlock()` and retry.
@@ -55,7 +56,7 @@ inductive Body | ok | kafka | io
   deriving DecidableEq, Repr
 
 inductive Event
-  | write (tag : Nat) (ok : Bool)
+  | write (tag : Nat) (ok : Bool) (id : Nat)   -- id: the correlation id put on the wire
   | take (seq : Nat)
   | yield (seq : Nat) (seen : Nat)
   | lone (seq : Nat) (seen : Nat)
@@ -87,9 +88,11 @@ def aloneWaiting (s : State) (seq : Nat) : Bool :=
   (List.range (s.nextSeq + 1)).all (fun i => i == seq || statusOf s i != some .waiting)
 
 def step (s : State) : Event → Option State
-  | .write tag ok =>
+  | .write tag ok id =>
     let seq := s.nextSeq + 1
-    if ok then some { s with nextSeq := seq, calls := upd s.calls seq ⟨tag, .waiting⟩ }
+    -- `c.correlationID++; id = c.correlationID` under wlock: the id on the wire is the next number
+    if id ≠ wire seq then none
+    else if ok then some { s with nextSeq := seq, calls := upd s.calls seq ⟨tag, .waiting⟩ }
     else some { s with nextSeq := seq, calls := upd s.calls seq ⟨tag, .done .err⟩, closed := true }
   | .take seq =>
     match s.rlock, statusOf s seq, s.stream with
